@@ -90,7 +90,9 @@ def r06_1(ctx):
     # void hybrids stay in statement position
     r = Runner(idx, keep_real=("resolve_hybrid",))
     fi, outs = r.run("resolve_hybrid", lambda: [AObj("Hybrid", {"value_type": void(), "seq_order": hyb_order("EXEC_ONLY"), "references_set": set()}, label="hybrid", opaque=True)], args_list=True)
-    ctx.check("resolve_hybrid[void] returns the effect itself", [lab(o.value) for o in outs] == ["hybrid"], "hybrid", str([lab(o.value) for o in outs]), fn_where(idx, fi))
+    flushed_void = all(any(e[0] == "flush" and e[1] is o.value for e in o.events) for o in outs if o.kind != "raise")
+    ctx.check("resolve_hybrid[void] returns the effect itself, sequenced after the pending effects of its arguments", [lab(o.value) for o in outs] == ["hybrid"] and flushed_void,
+              "chk_hybrid_dep(hybrid)", f"{[lab(o.value) for o in outs]}, flushed={flushed_void}", fn_where(idx, fi))
     # PostfixIncDec templates
     for op, name in (("++", "INC"), ("--", "DEC")):
         for ocls, exp in (("Register", f"WRITE_REG(bundle, <x.get_op_var()>, {name}(<x.il_read()>, <W>))"), ("LocalVar", f"SETL(<x.vm_id()>, {name}(<x.il_read()>, <W>))")):
@@ -240,6 +242,37 @@ def ternary_guard_checks(ctx):
             v = o.value
             ok = isinstance(v, AObj) and v.cls == "Ternary" and lab(ctor(v, "cond")) == "items[0]"
             ctx.check(f"conditional_expr[then {'stmt-expr' if th else 'plain'}, else {'stmt-expr' if eh else 'plain'}] value", ok, "Ternary(cond=items[0], ...)", lab(v)[:60], fn_where(idx, fi), nontrivial=False)
+    # any other value-producing operation in an arm (i++, a call): its pending effect has to be guarded by the condition too
+    for which in ("then", "else"):
+        r = Runner(idx)
+        box = {}
+
+        def items_p(which=which):
+            owner = AObj("PostfixIncDec", {}, label="inc.owner", opaque=True)
+            pend = r.pure("pending_arm", vt=mk_vt("tp", True, 32, ("PURE", "HYBRID_LVAR")), cls="LocalVar", hybrid_owner=owner)
+            r.stubs[("pending_arm", "get_name")] = "h_tmp7"
+            plain = r.pure("plain_arm", vt=mk_vt("tq", True, 32))
+            r.stubs[("plain_arm", "get_name")] = "x"
+            return [r.pure("items[0]"), pend, plain] if which == "then" else [r.pure("items[0]"), plain, pend]
+
+        def over_p():
+            e7 = eff(r, "pending7")
+            box["e7"] = e7
+            h = AObj("ILOpsHolder", {"hybrid_effect_dict": {"h_tmp7": e7}, "hybrid_op_count": 8}, label="holder", opaque=True)
+            box["h"] = h
+            return {"il_ops_holder": h}
+
+        fi, outs = r.run("conditional_expr", items_p, self_over=over_p)
+        good = [o for o in outs if o.kind != "raise" and not any(t.endswith(" folds") and v for t, v in o.decisions)]
+        ctx.need(good, "conditional_expr has no translating path for an arm with a pending operation")
+        for o in good:
+            d = box["h"].fields.get("hybrid_effect_dict")
+            entry = d.get("h_tmp7") if isinstance(d, dict) else None
+            guarded = isinstance(entry, AObj) and entry.cls == "Branch" and lab(ctor(entry, "cond")) == "items[0]" and \
+                (ctor(entry, "then") is box["e7"] if which == "then" else ctor(entry, "otherwise") is box["e7"])
+            ctx.check(f"?: whose {which}-arm is the value of `i++` or a call: the operation runs only if the arm is selected", guarded,
+                      f"pending effect wrapped as BRANCH(cond, {'effect, EMPTY' if which == 'then' else 'EMPTY, effect'})",
+                      "the pending effect stays unconditional: it is sequenced in front of the consumer and runs whichever arm is selected", fn_where(idx, fi))
     # update_stmt really replaces the statement that is emitted
     fu = idx.func("GCCStmtDeclExpr.update_stmt")
     box = {}
